@@ -1,4 +1,5 @@
 import ArrowModel.C09.Physical
+import ArrowModel.C09.Utf8
 import ArrowModel.C09.Spec
 import ArrowModel.C09.Model
 /-
@@ -269,6 +270,161 @@ theorem validate_children_nil {d : ArrayData} (h : validate d = .ok)
   have h2 := h.2.1
   simp only at ht
   rcases ht with rfl | rfl | ⟨w, rfl⟩ | ⟨w, rfl⟩ <;> simp [errIf_ok] at h2 <;> simpa using h2
+
+
+
+/-- what a successful `validate_each_offset` establishes -/
+theorem eachOffset_ok {d : ArrayData} {offs : List Nat} {large : Bool} {limit : Nat}
+    {each : Nat → Nat → Bool} (h : eachOffset d offs large limit each = .ok) :
+    (d.len = 0 ∧ offs = []) ∨
+    ∀ i, i < d.len →
+      offsetPairOk offs large limit (d.offset + i) = true ∧
+      ∃ a b : Int, readInt offs (offW large) true (d.offset + i) = some a ∧
+        readInt offs (offW large) true (d.offset + i + 1) = some b ∧ 0 ≤ a ∧ 0 ≤ b ∧
+        a ≤ b ∧ b ≤ (limit : Int) ∧ each a.toNat b.toNat = true := by
+  unfold eachOffset at h
+  split at h
+  · rename_i h0; left; exact ⟨h0.1, by simpa [list_isEmpty_iff] using h0.2⟩
+  · right
+    split at h
+    · simp at h
+    · split at h
+      · simp at h
+      · split at h
+        · simp at h
+        · split at h
+          · simp at h
+          · rw [errIf_ok] at h
+            simp only [Bool.not_eq_false'] at h
+            rw [allBelow_iff] at h
+            intro i hi
+            have := h i hi
+            unfold offsetPairOk
+            split at this
+            · rename_i a b ha hb
+              simp only [Bool.and_eq_true, decide_eq_true_eq] at this
+              rw [ha, hb]
+              refine ⟨by simpa using this.1, a, b, rfl, rfl, this.1.1, by omega, this.1.2.1, this.1.2.2, this.2⟩
+            · simp at this
+
+
+
+theorem validateValues_of_data {d : ArrayData} (h : validateData d = .ok) :
+    validate d = .ok ∧ validateValues d = .ok := by
+  unfold validateData at h
+  rw [andThen_ok, andThen_ok] at h
+  exact ⟨h.1, h.2.2⟩
+
+theorem validate_children_nil_bin {d : ArrayData} (h : validate d = .ok)
+    (ht : (∃ l, d.type = .binary l) ∨ (∃ l, d.type = .utf8 l)) : d.children = [] := by
+  cases d with
+  | mk t l o n bs cs =>
+  unfold validate at h
+  rw [andThen_ok, andThen_ok] at h
+  have h2 := h.2.1
+  simp only at ht
+  rcases ht with ⟨w, rfl⟩ | ⟨w, rfl⟩ <;> simp [errIf_ok] at h2 <;> simpa using h2
+
+theorem two_buffers {d : ArrayData} (h : d.buffers.length = 2) : ∃ a b, d.buffers = [a, b] := by
+  rcases hb : d.buffers with _ | ⟨a, _ | ⟨b, _ | ⟨c, r⟩⟩⟩ <;> rw [hb] at h <;> simp at h
+  exact ⟨a, b, rfl⟩
+
+
+theorem singleChild_ok {e : DType} {cs : List ArrayData} (h : singleChild e cs = .ok) :
+    ∃ c, cs = [c] ∧ c.type = e ∧ validate c = .ok := by
+  rcases cs with _ | ⟨c, _ | ⟨c2, r⟩⟩
+  · simp [singleChild] at h
+  · unfold singleChild at h
+    rw [andThen_ok, errIf_ok] at h
+    exact ⟨c, rfl, by simpa using h.1, h.2⟩
+  · simp [singleChild] at h
+
+theorem one_buffer {d : ArrayData} (h : d.buffers.length = 1) : ∃ a, d.buffers = [a] := by
+  rcases hb : d.buffers with _ | ⟨a, _ | ⟨b, r⟩⟩ <;> rw [hb] at h <;> simp at h
+  exact ⟨a, rfl⟩
+
+theorem validate_dict_parts {d : ArrayData} {kw : Nat} {signed : Bool} {value : DType}
+    (h : validate d = .ok) (ht : d.type = .dict kw signed value) :
+    (∃ c, d.children = [c] ∧ c.type = value ∧ validate c = .ok) ∧ (kw = 1 ∨ kw = 2 ∨ kw = 4 ∨ kw = 8) := by
+  cases d with
+  | mk t l o n bs cs =>
+  simp only at ht
+  subst ht
+  unfold validate at h
+  rw [andThen_ok, andThen_ok] at h
+  refine ⟨singleChild_ok h.2.1, ?_⟩
+  have := h.2.2
+  simp only [errIf_ok] at this
+  simp only [Bool.not_eq_false', decide_eq_true_eq] at this
+  exact this
+
+
+theorem countNulls_zero {bytes : List Nat} {off len : Nat} (h : countNulls bytes off len = 0) :
+    ∀ i, i < len → bitAt bytes (off + i) = some true := by
+  unfold countNulls at h
+  rw [List.length_eq_zero_iff, List.filter_eq_nil_iff] at h
+  intro i hi
+  have := h i (List.mem_range.mpr hi)
+  simpa using this
+
+/-- a child with declared null count 0 and an exact null count has only valid slots -/
+theorem allValid_of_nullCount_zero {c : ArrayData} (hc : NullsOk c) (h0 : nullCountOf c = 0) :
+    ∀ j, j < c.len → c.isValid j = true := by
+  intro j hj
+  unfold ArrayData.isValid ArrayData.validAt
+  unfold NullsOk at hc
+  unfold nullCountOf at h0
+  cases hn : c.nulls with
+  | none => simp
+  | some n =>
+    rw [hn] at hc h0
+    simp only at hc h0
+    have := countNulls_zero (by rw [← hc.2.2]; exact h0) j (by rw [hc.1]; exact hj)
+    simp [this]
+
+theorem validate_list_parts {d : ArrayData} {large : Bool} {item : DType} {nullable : Bool}
+    (h : validate d = .ok) (ht : d.type = .list large item nullable) :
+    ∃ c, d.children = [c] ∧ c.type = item ∧ validate c = .ok := by
+  cases d with
+  | mk t l o n bs cs =>
+  simp only at ht
+  subst ht
+  unfold validate at h
+  rw [andThen_ok, andThen_ok] at h
+  have := h.2.1
+  rw [andThen_ok] at this
+  exact singleChild_ok this.1
+
+
+theorem isBoundary_of_isCharBoundary {data : List Nat} {i : Nat} (h : isCharBoundary data i = true) :
+    IsBoundary data i := by
+  unfold isCharBoundary at h
+  simp only [Bool.or_eq_true, beq_iff_eq] at h
+  rcases h with (h | h) | h
+  · exact Or.inl h
+  · exact Or.inr (Or.inl h)
+  · right; right
+    split at h
+    · rename_i b hb; exact ⟨b, hb, by simpa using h⟩
+    · simp at h
+
+theorem isBoundary_drop {data : List Nat} {a b : Nat} (hab : a ≤ b) (hb : b ≤ data.length)
+    (h : IsBoundary data b) : IsBoundary (data.drop a) (b - a) := by
+  rcases h with h | h | ⟨x, hx, hc⟩
+  · left; omega
+  · right; left; simp only [List.length_drop]; omega
+  · right; right
+    refine ⟨x, ?_, hc⟩
+    rw [List.getElem?_drop, show a + (b - a) = b by omega]; exact hx
+
+/-- a slice of a well-formed string between two character boundaries is well-formed -/
+theorem utf8Valid_slice {data : List Nat} {a b : Nat} (hv : utf8Valid data = true) (hab : a ≤ b)
+    (hb : b ≤ data.length) (ha' : IsBoundary data a) (hb' : IsBoundary data b) :
+    ∃ v, sliceChecked data a b = some v ∧ utf8Valid v = true := by
+  refine ⟨(data.drop a).take (b - a), by simp [sliceChecked, hab, hb], ?_⟩
+  have h1 := (utf8Valid_split _ data a rfl hv (by omega) ha').1
+  exact (utf8Valid_split _ (data.drop a) (b - a) rfl h1
+    (by simp only [List.length_drop]; omega) (isBoundary_drop hab hb hb')).2
 
 
 end ArrowModel.C09
